@@ -193,14 +193,21 @@ CHECKS["C08"] = dict(
           "write to the parser rests on the executed histories of py/c08.py, not on a theorem."))
 
 CHECKS["C17"] = dict(
-    text=("Theorems over the model of read_ampgen / expand_lines on the transformed option file: the expansion of a line is exactly "
-          "the set of its complete decay lines (sound and complete w.r.t. an inductive specification), their number is the "
+    text=("Theorems. Text front end (Amp/Text.v, the option file as text: line feeds / CR LF, comments, scanner, line parser following "
+          "ampgen.lark as Lark's contextual lexer + LALR driver + AmpGenTransformer read it): every well-formed option file (event type, "
+          "complex decay lines with nested and tagged decays, constants, variables, the coherent-sum option), written with any gap width, is "
+          "read back as exactly that file; LABEL words never contain a separator. From the file on (Amp/Read.v): the expansion of a line is "
+          "exactly the set of its complete decay lines (sound and complete w.r.t. an inductive specification), their number is the "
           "product/sum formula, every amplitude keeps the root of its line (name, particle, tags, coupling, fixedness); coupling is "
           "(magnitude, phase) or (re, im) under the cartesian option; tables have one row per parameter/constant line; the "
-          "coherent-sum option is read and selects the coupling mode. Unbounded. PARTIAL: the AmpGen lexer/parser is not modelled "
-          "(texts rendered by the harness); fuzzy particle-name lookup is regenerated data; exp/cos/sin compared numerically."),
-    design="DESIGN.md §5 C17",
-    technique="Coq proof (fuel induction, cartesian-product lemmas) + differential correspondence through AmplitudeChain.read_ampgen")
+          "coherent-sum option is read and selects the coupling mode. Unbounded. PARTIAL: Amp/Text.v is a hand-written model of Lark on "
+          "this grammar (words the lexer would cut in two are outside its domain), tied on every run by comparing its reading of every "
+          "text — generated files, re-spellings, some twenty kinds of malformation, the shipped model file — with the tree Lark builds "
+          "without transformer (accept / reject and tree), and the whole pipeline text -> amplitudes with read_ampgen; fuzzy "
+          "particle-name lookup is regenerated data; exp/cos/sin compared numerically."),
+    design="DESIGN.md §0 (C17 front end as built), §5 C17",
+    technique=("Coq proof (scanner / line-parser round trip by induction over decay trees and lines; fuel induction, cartesian-product lemmas for "
+               "the expansion) + differential correspondence through Lark (raw tree) and AmplitudeChain.read_ampgen on texts"))
 CHECKS["C18"] = dict(
     text=("Theorems: list_structure returns exactly the injective assignments sigma with fs[sigma i] = st[i], each once (any number of "
           "particles, any multiplicities), and raises iff a particle is missing from the event type; the structured output of "
